@@ -142,7 +142,12 @@ def main(run: Run):
         run.assumptions += BASE_ASSUMPTIONS_L1 + [
             "gpio.Peripheral.elaborate contract: Amaranth objects are recording stubs (statements issued for one arbitrary pin, synchroniser loop by "
             "invariant); their hardware meaning is Amaranth's semantics (assumed; checked per configuration by the hdlvc clauses)"]
-        discharge_all(run, fv.obs, timeout_ms=10000)
+        fo = gpio_l1.verify_output_field_elaborate()
+        run.functions["amaranth_soc.gpio.Peripheral.Output._FieldAction.elaborate [statements issued]"] = f"proved ({fo.paths} paths, {len(fo.obs)} obligations)"
+        run.require("gpio.Peripheral.Output._FieldAction.elaborate::a-set-or-clear-request-loads-the-set-bit",
+                    "gpio.Peripheral.Output._FieldAction.elaborate::a-register-write-loads-the-written-bit",
+                    "gpio.Peripheral.Output._FieldAction.elaborate::exactly-four-statements")
+        discharge_all(run, fv.obs + fo.obs, timeout_ms=10000)
     except Unsupported as e:
         run.functions["amaranth_soc.gpio.Peripheral.elaborate [statements issued]"] = f"unsupported: {e} (the per-configuration clauses decide)"
         run.bounded_notes.append(f"gpio.Peripheral.elaborate: outside the pyvc subset on this tree ({e}); per-configuration clauses decide")
